@@ -45,6 +45,8 @@ CxNames == << CxRep(<<195, 169>>, 128),                       \* 256 bytes of tw
               CxA(3) \o CxRep(<<240, 159, 146, 169>>, 75),
               (* ASCII names a text-minded implementation may try to interpret: IDNA A-labels (well formed, degenerate, with extreme *)
               (* digits), IP literals, wildcards, percent escapes, very long labels                                                  *)
+              <<97, 226, 128, 168, 98>>, <<226, 128, 169>>, <<97, 226, 128, 168>>, <<226, 128, 168, 226, 128, 169, 46, 99>>,   \* U+2028 / U+2029
+              <<1, 27, 127, 10, 13, 9>>, <<239, 187, 191, 97>>, <<226, 128, 174, 97, 98>>, <<97, 194, 133, 98>>, <<194, 160>>,   \* controls, BOM, RLO, NEL, NBSP
               CxStr("xn--mnchen-3ya.example"), CxStr("xn--9999999999"), CxStr("xn--"), CxStr("xn--a"), CxStr("XN--ZZZZZZZZZZZZZZZZZZZZ"),
               CxStr("xn--99999999999999999999999999999999999999.xn--zzzzzzzzzzzzzzzz9"), CxStr("a.xn---.b"), CxStr("xn--0"),
               CxStr("[::1]"), CxStr("127.0.0.1"), CxStr("*.example.com"), CxStr("%00%ff%zz"), CxStr("..") , CxA(63) \o <<46>> \o CxA(64) \o <<46>> \o CxA(200) >>
